@@ -1,3 +1,5 @@
+//go:build go1.25
+
 package sim
 
 import (
@@ -15,6 +17,7 @@ import (
 	"log"
 	"math/big"
 	"net"
+	"os"
 	"regexp"
 	"runtime"
 	"strings"
@@ -304,7 +307,11 @@ func DiscardTracer(context.Context, bool, quic.ConnectionID) qlogwriter.Trace { 
 // DebugLogging switches the library's default logger to debug level (output discarded) and returns the function
 // that switches it off again. The level is process-wide: cases run one after the other in a process.
 func DebugLogging() func() {
-	log.SetOutput(io.Discard)
+	if os.Getenv("VERIF_SIM_LOG") == "" {
+		log.SetOutput(io.Discard)
+	} else {
+		utils.DefaultLogger.SetLogTimeFormat("05.000") // development aid: the library's debug log (virtual time) on stderr
+	}
 	utils.DefaultLogger.SetLogLevel(utils.LogLevelDebug)
 	return func() { utils.DefaultLogger.SetLogLevel(utils.LogLevelNothing) }
 }
